@@ -569,6 +569,16 @@ fn cmd_check(args: &Args) -> i32 {
             resampled += 1;
             if &again.hash != h && again.violation.is_none() {
                 eprintln!("harness error: {} run {i} (seed {}) is not reproducible: event-log hash {h} then {} - a source of nondeterminism is not behind a seam", sim.name(), run_seed(master, *sim, *i), again.hash);
+                // diagnosis: the same run traced on a new thread and on this one; the first event that differs
+                let (sim2, prop2, i2, seed2) = (*sim, prop.clone(), *i, run_seed(master, *sim, *i));
+                let fresh = std::thread::Builder::new().stack_size(64 << 20).spawn(move || run_one(sim2, &prop2, i2, seed2, None, true)).ok().and_then(|t| t.join().ok());
+                let here = run_one(*sim, &prop, *i, seed2, None, true);
+                if let Some(fresh) = fresh {
+                    let k = fresh.events.iter().zip(here.events.iter()).position(|(a, b)| a != b).unwrap_or(fresh.events.len().min(here.events.len()));
+                    eprintln!("  on a new thread: hash {}, {} events; on this thread: hash {}, {} events; first difference at event {k}", fresh.hash, fresh.events.len(), here.hash, here.events.len());
+                    eprintln!("  new thread : {}", fresh.events.get(k).map_or("(end of log)", String::as_str));
+                    eprintln!("  this thread: {}", here.events.get(k).map_or("(end of log)", String::as_str));
+                }
                 return 2;
             }
         }
